@@ -35,7 +35,7 @@ package keeper
 //@           && actsFor(old(Order[msg.OrderId].Creator), msg.Provider, old(has(Node, msg.Provider)), old(Node[msg.Provider])))
 //@   ensures [C05.cancel.pending] err == nil ==> old(has(Order, msg.OrderId)) && old(Order[msg.OrderId].Status) != OrderCompleted
 //@   ensures [C05.cancel.order] err == nil ==> !has(Order, msg.OrderId)
-//@   ensures [C05.cancel.shards] err == nil ==> forall i int :: 0 <= i && i < len(old(Order[msg.OrderId].Shards)) ==> !has(Shard, old(Order[msg.OrderId].Shards)[i])
+//@   ensures [C05.cancel.shards] [C13.cancel.shards] err == nil ==> forall i int :: 0 <= i && i < len(old(Order[msg.OrderId].Shards)) ==> !has(Shard, old(Order[msg.OrderId].Shards)[i])
 //@   ensures [C05.cancel.model] err == nil && old(has(Metadata, Order[msg.OrderId].DataId)) && len(old(Metadata[Order[msg.OrderId].DataId].Commits)) == 0 ==> !has(Metadata, old(Order[msg.OrderId].DataId))
 //@   ensures [C05.cancel.restore] err == nil && old(has(Metadata, Order[msg.OrderId].DataId)) && len(old(Metadata[Order[msg.OrderId].DataId].Commits)) > 0 && len(old(Metadata[Order[msg.OrderId].DataId].Orders)) > 0 ==>
 //@       has(Metadata, old(Order[msg.OrderId].DataId)) && Metadata[old(Order[msg.OrderId].DataId)].Status == MetaComplete
@@ -80,8 +80,8 @@ package keeper
 //@       && (has(Pledge, Shard[shardId].Sp) ==> Pledge[Shard[shardId].Sp].TotalShardPledged.Denom == Shard[shardId].Pledge.Denom && Pledge[Shard[shardId].Sp].TotalShardPledged.Amount >= Shard[shardId].Pledge.Amount)
 //@       && (len(Shard[shardId].RenewInfos) > 0 ==> has(Order, Shard[shardId].RenewInfos[0].OrderId) &&
 //@             Order[Shard[shardId].RenewInfos[0].OrderId].Amount.Amount >= 0 && validDenom(Order[Shard[shardId].RenewInfos[0].OrderId].Amount.Denom))
-//@   ensures [C11.expire.release] old(has(Shard, shardId)) && old(has(Order, Shard[shardId].OrderId)) && len(old(Shard[shardId].RenewInfos)) == 0 ==> !has(Shard, shardId)
-//@   ensures [C11.expire.rotate] old(has(Shard, shardId)) && old(has(Order, Shard[shardId].OrderId)) && len(old(Shard[shardId].RenewInfos)) > 0 ==>
+//@   ensures [C11.expire.release] [C13.expire.release] old(has(Shard, shardId)) && old(has(Order, Shard[shardId].OrderId)) && len(old(Shard[shardId].RenewInfos)) == 0 ==> !has(Shard, shardId)
+//@   ensures [C11.expire.rotate] [C13.expire.rotate] old(has(Shard, shardId)) && old(has(Order, Shard[shardId].OrderId)) && len(old(Shard[shardId].RenewInfos)) > 0 ==>
 //@       has(Shard, shardId) && Shard[shardId].CreatedAt == H && Shard[shardId].Duration == old(Shard[shardId].RenewInfos)[0].Duration
 //@       && Shard[shardId].OrderId == old(Shard[shardId].RenewInfos)[0].OrderId && len(Shard[shardId].RenewInfos) == len(old(Shard[shardId].RenewInfos)) - 1
 //@       && Shard[shardId].Sp == old(Shard[shardId].Sp) && Shard[shardId].Size_ == old(Shard[shardId].Size_) && Shard[shardId].Pledge == old(Shard[shardId].Pledge) && Shard[shardId].Status == old(Shard[shardId].Status)
@@ -151,7 +151,7 @@ package keeper
 //@   modifies *
 //@   at RandomSP assert [C15.timeout.ignore] forall i int :: 0 <= i && i < len(order.Shards) && has(Shard, order.Shards[i]) ==> contains(ignore, Shard[order.Shards[i]].Sp)
 //@   at RandomSP assert [C15.timeout.count] count >= 1
-//@   ensures [C05.timeout.shards] old(has(Order, orderId)) && old(Order[orderId].Status) != OrderPending && !has(Order, orderId) ==>
+//@   ensures [C05.timeout.shards] [C13.timeout.shards] old(has(Order, orderId)) && old(Order[orderId].Status) != OrderPending && !has(Order, orderId) ==>
 //@       forall i int :: 0 <= i && i < len(old(Order[orderId].Shards)) ==> !has(Shard, old(Order[orderId].Shards)[i])
 //@   ensures [C12.timeout.absent] !old(has(Order, orderId)) ==> !has(Order, orderId)
 //@   ensures [C13.timeout.listed] old(forall x int :: 0 <= x && x <= MaxUint64 && has(Shard, x) && Shard[x].OrderId == orderId ==> contains(Order[orderId].Shards, x)) && has(Order, orderId) ==>
@@ -262,7 +262,7 @@ package keeper
 //@   ensures [C16.store.id] err == nil ==> resp != nil && resp.OrderId == old(effOrderCount(get(OrderCount))) && !old(has(Order, now(resp.OrderId))) && has(Order, resp.OrderId)
 //@       && effOrderCount(get(OrderCount)) == resp.OrderId + 1
 //@   ensures [C12.store.timeout] err == nil ==> Order[resp.OrderId].Timeout >= 1 && H + Order[resp.OrderId].Timeout <= MaxUint64
-//@   ensures [C12.store.sched] err == nil && len(Order[resp.OrderId].Shards) > 0 ==> has(TimeoutOrder, u64(H + Order[resp.OrderId].Timeout))
+//@   ensures [C12.store.sched] [C13.store.sched] err == nil && len(Order[resp.OrderId].Shards) > 0 ==> has(TimeoutOrder, u64(H + Order[resp.OrderId].Timeout))
 //@       && contains(TimeoutOrder[u64(H + Order[resp.OrderId].Timeout)].OrderList, resp.OrderId)
 //@   ensures [C10.store.sponsor] err == nil && msg.Proposal.PaymentDid != "" ==> old(has(PaymentAddress, msg.Proposal.PaymentDid))
 //@       && msg.Creator == old(PaymentAddress[msg.Proposal.PaymentDid].Address)
@@ -301,7 +301,7 @@ package keeper
 //@   ensures [C10.ready.actor] err == nil ==> msg.Provider == old(Order[msg.OrderId].Provider)
 //@       && actsFor(msg.Creator, msg.Provider, old(has(Node, msg.Provider)), old(Node[msg.Provider]))
 //@   ensures [C12.ready.pending] err == nil ==> old(has(Order, msg.OrderId)) && old(Order[msg.OrderId].Status) == OrderPending
-//@   ensures [C12.ready.sched] err == nil ==> has(TimeoutOrder, u64(H + old(Order[msg.OrderId].Timeout)))
+//@   ensures [C12.ready.sched] [C13.ready.sched] err == nil ==> has(TimeoutOrder, u64(H + old(Order[msg.OrderId].Timeout)))
 //@       && contains(TimeoutOrder[u64(H + old(Order[msg.OrderId].Timeout))].OrderList, msg.OrderId)
 //@   ensures [C15.ready.replicas] err == nil ==> has(Order, msg.OrderId) && len(Order[msg.OrderId].Shards) == len(old(Order[msg.OrderId].Shards)) + old(Order[msg.OrderId].Replica)
 //@       && old(Order[msg.OrderId].Replica) >= 1 && Order[msg.OrderId].Status == OrderDataReady
@@ -346,7 +346,7 @@ package keeper
 //@   at RenewOrder assert [C04.renew.quote] order.Amount.Denom == BondDenom && order.Operation == 3 && (order.Size_ <= MaxInt64 ==>
 //@       order.Amount.Amount == div(1000000000000 * order.Replica * order.Size_ * order.Duration, 1000000000000000000)
 //@            + (mod(1000000000000 * order.Replica * order.Size_ * order.Duration, 1000000000000000000) == 0 ? 0 : 1))
-//@   at SetPledge assert [C07.renew.topup] [C14.renew.topup] [C02.renew.topup] has(Pledge, shard.Sp) ==> pledge.TotalShardPledged.Amount == Pledge[shard.Sp].TotalShardPledged.Amount + extraPledge.Amount
+//@   at SetPledge assert [C07.renew.topup] [C14.renew.topup] [C02.renew.topup] [C06.renew.topup] has(Pledge, shard.Sp) ==> pledge.TotalShardPledged.Amount == Pledge[shard.Sp].TotalShardPledged.Amount + extraPledge.Amount
 //@       && pledge.TotalStoragePledged == Pledge[shard.Sp].TotalStoragePledged && pledge.TotalStorage == Pledge[shard.Sp].TotalStorage && pledge.UsedStorage == Pledge[shard.Sp].UsedStorage
 //@   at SetShard assert [C07.renew.shardpledge] shard.Pledge.Amount >= Shard[shard.Id].Pledge.Amount && shard.Pledge.Amount >= newPledge.Amount
 //@   at SetShard assert [C11.renew.queue] len(shard.RenewInfos) == len(Shard[shard.Id].RenewInfos) + 1 && shard.RenewInfos[len(shard.RenewInfos) - 1].Duration == msg.Proposal.Duration
@@ -478,7 +478,7 @@ package keeper
 //@       && has(Shard, old(Order[msg.OrderId].Shards)[j]) && Shard[old(Order[msg.OrderId].Shards)[j]].Sp == msg.Provider
 //@       && Shard[old(Order[msg.OrderId].Shards)[j]].Status == ShardCompleted && Shard[old(Order[msg.OrderId].Shards)[j]].CreatedAt == H
 //@       && Shard[old(Order[msg.OrderId].Shards)[j]].Duration == old(Order[msg.OrderId].Duration)
-//@   at SetExpiredShardBlock assert [C11.complete.sched] shardId == shard.Id && shard.Sp == msg.Provider && shard.Status == ShardCompleted && shard.CreatedAt == H
+//@   at SetExpiredShardBlock assert [C11.complete.sched] [C13.complete.sched] shardId == shard.Id && shard.Sp == msg.Provider && shard.Status == ShardCompleted && shard.CreatedAt == H
 //@       && expiredAt == u64(shard.CreatedAt + shard.Duration) && (old(Shard[shard.Id].Status) != ShardMigrating ==> contains(order.Shards, shard.Id))
 //@   at Migrate assert [C04.complete.migrate.handover] [C13.complete.migrate.handover] toShard.Id == shard.Id && old(has(Shard, fromShard.Id)) && fromShard == old(Shard[fromShard.Id])
 //@       && fromShard.Sp == old(Shard[shard.Id].From) && contains(old(Order[msg.OrderId].Shards), fromShard.Id)
